@@ -392,6 +392,7 @@ func runC01History(c *Ctx) {
 // ---------------------------------------------------------------- C06
 
 func runC06(c *Ctx) {
+	defer c06StructuredNames(c)
 	n := sizes(c, 4000, 80000)
 	k := AdmitKnobs{FaultPct: 3, SynPct: 70, SubPct: 10, ExemptHeavy: true}
 	extra := c06Oracle(c)
@@ -1103,6 +1104,7 @@ func sortStrings(s []string) {
 func runC12(c *Ctx) {
 	runC12Webhook(c)
 	runC12ListTime(c)
+	c12OverlappingDryRuns(c)
 	runRealListerHistory(c)
 	n := sizes(c, 1500, 20000)
 	k := AdmitKnobs{Kind: "ns", FaultPct: 0, SynPct: 85, SubPct: 0, Pods: popGen(12, true)}
